@@ -31,6 +31,8 @@ func init() {
 	more["(*regexp.Regexp).MatchString"] = libReMatch
 	more["(*regexp.Regexp).Match"] = libReMatch
 	more["regexp.MustCompile"] = libMustCompile
+	more["strings.SplitN"] = libSplitN
+	more["strings.Contains"] = libContains
 	for k, v := range more {
 		libModels[k] = v
 	}
@@ -369,5 +371,41 @@ func libMustCompile(g *FuncGen, c *ast.CallExpr, callee *types.Func, st *State) 
 	}
 	r := g.freshVal(st, "re", callee.Type().(*types.Signature).Results().At(0).Type())
 	g.assume(st, fmt.Sprintf("(not (= %s 0))", r.T))
+	return []Val{r}
+}
+
+func libContains(g *FuncGen, c *ast.CallExpr, callee *types.Func, st *State) []Val {
+	a := g.ev(c.Args[0], st)
+	b := g.ev(c.Args[1], st)
+	return []Val{{fmt.Sprintf("(contains %s %s)", a.T, b.T), types.Typ[types.Bool], "Bool"}}
+}
+
+// strings.SplitN(s, sep, 2) with a constant non-empty separator: split at the first occurrence.
+func libSplitN(g *FuncGen, c *ast.CallExpr, callee *types.Func, st *State) []Val {
+	s := g.ev(c.Args[0], st)
+	sep := g.ev(c.Args[1], st)
+	nv, ok := g.info.Types[c.Args[2]]
+	ty := callee.Type().(*types.Signature).Results().At(0).Type()
+	septv, ok2 := g.info.Types[c.Args[1]]
+	if !ok || nv.Value == nil || !ok2 || septv.Value == nil || constant.StringVal(septv.Value) == "" {
+		g.ev(c.Args[2], st)
+		return []Val{g.freshVal(st, "splitn", ty)}
+	}
+	n, _ := constant.Int64Val(nv.Value)
+	r := g.freshVal(st, "splitn", ty)
+	switch n {
+	case 2:
+		g.assume(st, fmt.Sprintf("(ite (contains %s %s) (and (= (slen %s) 2) (= (select (selems %s) 0) (splitHead %s %s)) (= (select (selems %s) 1) (splitTail %s %s))) (and (= (slen %s) 1) (= (select (selems %s) 0) %s)))",
+			s.T, sep.T, r.T, r.T, s.T, sep.T, r.T, s.T, sep.T, r.T, r.T, s.T))
+	case 3:
+		t1 := fmt.Sprintf("(splitTail %s %s)", s.T, sep.T)
+		g.assume(st, fmt.Sprintf("(ite (contains %s %s) (ite (contains %s %s) (and (= (slen %s) 3) (= (select (selems %s) 0) (splitHead %s %s)) (= (select (selems %s) 1) (splitHead %s %s)) (= (select (selems %s) 2) (splitTail %s %s))) (and (= (slen %s) 2) (= (select (selems %s) 0) (splitHead %s %s)) (= (select (selems %s) 1) %s))) (and (= (slen %s) 1) (= (select (selems %s) 0) %s)))",
+			s.T, sep.T, t1, sep.T,
+			r.T, r.T, s.T, sep.T, r.T, t1, sep.T, r.T, t1, sep.T,
+			r.T, r.T, s.T, sep.T, r.T, t1,
+			r.T, r.T, s.T))
+	default:
+		g.assume(st, fmt.Sprintf("(>= (slen %s) 1)", r.T))
+	}
 	return []Val{r}
 }
